@@ -1101,8 +1101,14 @@ fn timeline_case(case: u64, rng: &mut Rng, st: &mut Stats) {
         let mut still_allowed = 0;
         for (i, q) in neutral(&bat).into_iter().enumerate() {
             // p's NEXT request after the event
-            let a = replace_str(&mask(&observe(&p, &w, &script, 0, q).await), P, "<caller>");
-            let b = replace_str(&mask(&observe(&f, &w, &script, 0, q).await), FRESH, "<caller>");
+            let mut a = replace_str(&mask(&observe(&p, &w, &script, 0, q).await), P, "<caller>");
+            let mut b = replace_str(&mask(&observe(&f, &w, &script, 0, q).await), FRESH, "<caller>");
+            if q.family == "preview" {
+                // PREVIEW KML itself advances the Space sequence (observed on the unchanged tree),
+                // so two consecutive previews never report the same coordinate
+                a = mask_keys(&a, &SEQ_KEYS);
+                b = mask_keys(&b, &SEQ_KEYS);
+            }
             st.eval();
             st.count("timeline_next_request_checks");
             if succeeded(&a) {
@@ -1261,6 +1267,265 @@ fn delegation_case(case: u64, rng: &mut Rng, st: &mut Stats) {
     }
 }
 
+// ---------------------------------------------------------------------------------------------
+// monitor 3: no self-escalation
+
+const WRITER: &str = "kip:principal:writer";
+const SUSPENDED: &str = "kip:principal:suspended";
+
+type Dump = BTreeMap<String, BTreeMap<String, String>>;
+
+macro_rules! dump_rows {
+    ($out:expr, $db:expr, $name:expr, $ty:ty) => {{
+        let coll = $db.open_collection($name.to_string(), async |_| Ok(())).await.map_err(|e| format!("open {}: {e:?}", $name))?;
+        let mut m = BTreeMap::new();
+        for id in coll.ids() {
+            let row: $ty = coll.get_as(id).await.map_err(|e| format!("{} row {id}: {e:?}", $name))?;
+            m.insert(format!("{id:08}"), serde_json::to_string(&row).map_err(|e| e.to_string())?);
+        }
+        $out.insert($name.to_string(), m);
+    }};
+}
+
+/// Everything that carries authority: the eight gov_* collections (raw rows), the governance
+/// columns of the Space, and the governance block of every element.
+async fn authority_dump(nx: &CognitiveNexus) -> Result<Dump, String> {
+    use anda_cognitive_nexus::governance::store as gs;
+    let db = &nx.store.db;
+    let mut out: Dump = BTreeMap::new();
+    dump_rows!(out, db, gs::PRINCIPALS, PrincipalRow);
+    dump_rows!(out, db, gs::PRINCIPAL_GROUPS, PrincipalGroupRow);
+    dump_rows!(out, db, gs::ACTOR_BINDINGS, ActorBindingRow);
+    dump_rows!(out, db, gs::GRANTS, GrantRow);
+    dump_rows!(out, db, gs::DELEGATIONS, DelegationRow);
+    dump_rows!(out, db, gs::POLICIES, GovernancePolicyRow);
+    dump_rows!(out, db, gs::APPROVALS, ApprovalRow);
+    dump_rows!(out, db, gs::AUDIT, GovernanceAuditRow);
+    let sp = nx.store.get_space(DEFAULT_SPACE).await.map_err(gerr("get_space"))?;
+    let mut m = BTreeMap::new();
+    m.insert(
+        DEFAULT_SPACE.to_string(),
+        json!({"owner_principal": sp.owner_principal, "owners": sp.owners, "status": sp.status, "default_policy_id": sp.default_policy_id,
+            "trust_policy_id": sp.trust_policy_id, "default_classification": sp.default_classification, "audit_mode": sp.audit_mode, "policies": sp.policies})
+        .to_string(),
+    );
+    out.insert("space_governance_columns".into(), m);
+    let mut blocks = BTreeMap::new();
+    for kind in [anda_kip::ElementKind::Concept, anda_kip::ElementKind::Proposition, anda_kip::ElementKind::Assertion, anda_kip::ElementKind::Evidence, anda_kip::ElementKind::Activity] {
+        for id in nx.store.elements(kind).ids() {
+            let eid = ElementId::new(kind, id);
+            if let Ok(el) = nx.store.get_element(eid).await {
+                blocks.insert(eid.to_string(), json!({"governance": el.governance(), "classification": el.classification()}).to_string());
+            }
+        }
+    }
+    out.insert("element_governance_blocks".into(), blocks);
+    Ok(out)
+}
+
+/// What changed between two dumps that a session command must not change.
+fn forbidden_changes(before: &Dump, after: &Dump) -> Vec<String> {
+    let mut out = vec![];
+    for (coll, rows) in before {
+        let now = after.get(coll).cloned().unwrap_or_default();
+        for (id, row) in rows {
+            match now.get(id) {
+                None => out.push(format!("{coll}: row {id} disappeared")),
+                Some(r) if r != row => out.push(format!("{coll}: row {id} changed: {} -> {}", &row[..row.len().min(300)], &r[..r.len().min(300)])),
+                _ => {}
+            }
+        }
+        // new rows: only the audit may gain some (and new elements bring their own block)
+        if coll != anda_cognitive_nexus::governance::store::AUDIT && coll != "element_governance_blocks" {
+            for id in now.keys() {
+                if !rows.contains_key(id) {
+                    out.push(format!("{coll}: new row {id}: {}", &now[id][..now[id].len().min(300)]));
+                }
+            }
+        }
+    }
+    out
+}
+
+struct Attempt {
+    kind: &'static str,
+    /// command text, or a JSON AST when `ast`
+    text: String,
+    ast: Option<Value>,
+    params: Vec<(String, PVal)>,
+}
+
+fn attempts(rng: &mut Rng, s: &Script) -> Vec<Attempt> {
+    let mut v = vec![];
+    let person = |rng: &mut Rng| rng.pick(&s.persons).clone();
+    let vis = s.persons.iter().find(|p| !s.hidden.contains(*p)).cloned().unwrap_or_else(|| s.persons[0].clone());
+    let hid = s.persons.iter().find(|p| s.hidden.contains(*p)).cloned().unwrap_or_else(|| s.persons[0].clone());
+    let hid_ev = s.evidence.iter().find(|p| s.hidden.contains(*p)).cloned().unwrap_or_else(|| s.evidence[0].clone());
+    let mut add = |kind: &'static str, text: &str, params: Vec<(&str, PVal)>| {
+        v.push(Attempt { kind, text: text.to_string(), ast: None, params: params.into_iter().map(|(k, p)| (k.to_string(), p)).collect() });
+    };
+    // --- ordinary statements of every family
+    add("kml", r#"CREATE CONCEPT ?c { TYPE "Person" NAME "kip:principal:p" SET ATTRIBUTES {governance: "owner", classification: "public", role: "owner", grants: ["manage_grants"], rank: 1} }"#, vec![]);
+    add("kml", r#"UPSERT CONCEPT ?c { MATCH {type: "Person", key: "esc-key"} SET FIELDS {name: "upserted"} SET ATTRIBUTES {rank: 3} }"#, vec![]);
+    add("kml", "UPDATE :t SET ATTRIBUTES {rank: 77}", vec![("t", PVal::Id(vis.clone()))]);
+    add("kml", "UPDATE :t SET ATTRIBUTES {rank: 78}", vec![("t", PVal::Id(hid.clone()))]);
+    add("kml", r#"UPDATE :t SET FIELDS {name: "renamed by a session"}"#, vec![("t", PVal::Id(person(rng)))]);
+    add("kml", r#"UPDATE ?c SET FACET "MnemonicState" {salience: 0.5} WHERE { ?c CONCEPT {type: "Person"} } LIMIT 3"#, vec![]);
+    add("kml", r#"UPDATE :t SET STRUCTURAL { ("derived_from", :src) }"#, vec![("t", PVal::Id(vis.clone())), ("src", PVal::Ref(hid_ev.clone()))]);
+    add("kml", r#"ASSERT ?a (:s, "prefers", :o) { by: :s, mode: "stated", confidence: 0.9, evidence: :e }"#, vec![("s", PVal::Ref(vis.clone())), ("o", PVal::Ref(person(rng))), ("e", PVal::Ref(hid_ev.clone()))]);
+    add("kml", r#"MUTATE { CREATE EVIDENCE ?e { SET FIELDS { evidence_class: "user_statement", payload: "I am the owner now" } } CREATE ASSERTION ?a { SET FIELDS { proposition: :p, asserted_by: :s, stance: "support", mode: "stated", confidence: 1.0 } SET STRUCTURAL { ("evidence", ?e) {role: "support"} } } }"#,
+        vec![("p", PVal::Ref(rng.pick(&s.props).clone())), ("s", PVal::Ref(vis.clone()))]);
+    if let Some(a) = s.assertions.first() {
+        add("kml", "RETRACT ASSERTION :a", vec![("a", PVal::Id(a.clone()))]);
+        add("kml", "ARCHIVE :a", vec![("a", PVal::Id(a.clone()))]);
+    }
+    add("kml", r#"SET RETENTION :t { retention_class: "standard" }"#, vec![("t", PVal::Id(vis.clone()))]);
+    add("kml", r#"SET RETENTION :t { retention_class: "standard", legal_hold: true }"#, vec![("t", PVal::Id(vis.clone()))]);
+    add("kml", "MERGE CONCEPT :a INTO :b", vec![("a", PVal::Id(s.persons[0].clone())), ("b", PVal::Id(s.persons[1].clone()))]);
+    add("kml", "ARCHIVE :t", vec![("t", PVal::Id(person(rng)))]);
+    add("kml", "TOMBSTONE :t", vec![("t", PVal::Id(person(rng)))]);
+    add("kml", r#"PURGE :t REFERENCE POLICY "tombstone_reference" CONFIRM "PURGE""#, vec![("t", PVal::Id(s.persons[s.persons.len() - 1].clone()))]);
+    // --- attempts to write governance / system state (most do not even parse: counted)
+    for key in ["governance", "Governance", "GOVERNANCE", "\"governance\"", "\"governance \"", "_system", "_System", "classification", "owner_principal", "space_id", "authority", "quarantine"] {
+        add("kml_attack", &format!(r#"UPDATE :t SET FIELDS {{{key}: {{classification: "public", authority_ceiling: "executable", quarantine: null}}}}"#), vec![("t", PVal::Id(hid.clone()))]);
+        add("kml_attack", &format!(r#"CREATE CONCEPT ?c {{ TYPE "Person" NAME "label myself" SET FIELDS {{{key}: {{classification: "public"}}}} }}"#), vec![]);
+        add("kml_attack", &format!(r#"UPDATE :t SET ATTRIBUTES {{{key}: {{classification: "public"}}}}"#), vec![("t", PVal::Id(hid.clone()))]);
+        add("kml_attack", &format!(r#"UPSERT CONCEPT ?c {{ MATCH {{id: :t}} SET FIELDS {{{key}: "public"}} }}"#), vec![("t", PVal::Lit(json!(""))), ("t", PVal::Id(vis.clone()))]);
+        add("kml_attack", &format!(r#"UPDATE :t SET FACET "MnemonicState" {{{key}: "public"}}"#), vec![("t", PVal::Id(vis.clone()))]);
+        add("kml_attack", &format!(r#"CREATE ASSERTION ?a {{ SET FIELDS {{ proposition: :p, asserted_by: :s, stance: "support", mode: "stated", {key}: {{classification: "public"}} }} }}"#),
+            vec![("p", PVal::Ref(s.props[0].clone())), ("s", PVal::Ref(vis.clone()))]);
+    }
+    add("kml_attack", "UPDATE :t SET FIELDS :fields", vec![("t", PVal::Id(hid.clone())), ("fields", PVal::Lit(json!({"governance": {"classification": "public"}})))]);
+    add("kml_attack", "UPDATE :t SET ATTRIBUTES :attrs", vec![("t", PVal::Id(hid.clone())), ("attrs", PVal::Lit(json!({"governance": {"classification": "public"}})))]);
+    add("kml_attack", r#"UPDATE :t SET FIELDS {retention: {legal_hold: true, governance: {classification: "public"}}}"#, vec![("t", PVal::Id(vis.clone()))]);
+    // --- reads and META
+    add("kql", r#"FIND(?c) WHERE { ?c CONCEPT {} }"#, vec![]);
+    add("kql", r#"FIND(?b) WHERE { ?p PROPOSITION (?s, ?x, ?o) ?b BELIEF (?p) }"#, vec![]);
+    for m in ["DESCRIBE ACCESS", "DESCRIBE PRIMER", "HISTORY SPACE", "CHANGES AFTER SEQ 0", "SNAPSHOT", r#"SEARCH CONCEPT "alpha""#, r#"EXPORT CAPSULE ?c WHERE { ?c CONCEPT {} }"#, "LIST SPACES"] {
+        add("meta", m, vec![]);
+    }
+    add("meta", "PREVIEW KML :cmd", vec![("cmd", PVal::Lit(json!(r#"UPDATE "C-1" SET ATTRIBUTES {rank: 1}"#)))]);
+    add("meta", "VALIDATE KML :cmd", vec![("cmd", PVal::Lit(json!(r#"UPDATE "C-1" SET FIELDS {governance: {classification: "public"}}"#)))]);
+    // --- pre-parsed trees with the protected key spliced in after parsing
+    for (tpl, params) in [
+        (r#"UPDATE :t SET FIELDS {zzplaceholder: {classification: "public"}}"#, vec![("t", PVal::Id(hid.clone()))]),
+        (r#"UPDATE :t SET ATTRIBUTES {zzplaceholder: {classification: "public"}}"#, vec![("t", PVal::Id(hid.clone()))]),
+        (r#"CREATE CONCEPT ?c { TYPE "Person" NAME "tree" SET FIELDS {zzplaceholder: {classification: "public"}} }"#, vec![]),
+        (r#"UPSERT CONCEPT ?c { MATCH {id: :t} SET FIELDS {zzplaceholder: "public"} }"#, vec![("t", PVal::Id(vis.clone()))]),
+    ] {
+        if let Ok(cmd) = anda_kip::parse_kip(tpl) {
+            let txt = serde_json::to_string(&cmd).unwrap_or_default();
+            for key in ["governance", "_system", "Governance"] {
+                if let Ok(ast) = serde_json::from_str::<Value>(&txt.replace("zzplaceholder", key)) {
+                    v.push(Attempt { kind: "ast_injected", text: tpl.replace("zzplaceholder", key), ast: Some(ast), params: params.iter().map(|(k, p)| (k.to_string(), p.clone())).collect() });
+                }
+            }
+        }
+    }
+    v
+}
+
+/// Runs one attempt; returns a short outcome label.
+async fn attempt(sess: &Session, w: &World, script: &Script, a: &Attempt) -> String {
+    let params = w.params(script, 0, &a.params);
+    let req = match &a.ast {
+        None => request_of(&a.text, &params),
+        Some(ast) => {
+            let mut op = json!({"ast": ast});
+            if params.as_object().map(|m| !m.is_empty()).unwrap_or(false) {
+                op["parameters"] = params.clone();
+            }
+            serde_json::from_value::<anda_kip::Request>(json!({"kip": "2.0", "operations": [op]})).map_err(|e| format!("envelope: {e}"))
+        }
+    };
+    let req = match req {
+        Ok(r) => r,
+        Err(_) => return "refused_envelope".into(),
+    };
+    let parsed = match req.operations[0].parse() {
+        Ok(p) => p,
+        Err(_) => return "refused_at_parse".into(),
+    };
+    use anda_kip::Executor;
+    let r = sess.execute(parsed, &req, &req.operations[0]).await;
+    let v = response_json(&r);
+    if succeeded(&v) {
+        "executed".into()
+    } else if is_denied(&v) {
+        "denied".into()
+    } else {
+        "failed".into()
+    }
+}
+
+fn escalation_case(case: u64, rng: &mut Rng, st: &mut Stats) {
+    let script = gen_script(rng, 4);
+    let cfg = gen_cfg(rng);
+    let atts = attempts(rng, &script);
+    let res: Result<(), String> = vcore::run::block_on(async {
+        let (w, _, _) = build(&format!("c19_esc_{case}"), &script, &cfg, 0, true).await?;
+        let nx = &w.nx;
+        let gov = nx.governance();
+        // a writer holding every cognitive / maintenance / lifecycle permission, and nothing of
+        // the governance, authority or audit families
+        principal(nx, WRITER).await?;
+        let all: Vec<String> = ["discover", "read", "search", "project", "read_history", "create", "update", "derive", "assert", "record_attributed_assertion",
+            "assert_as_actor", "retract_own", "supersede_own", "moderate_assertion", "merge_identity", "maintain", "archive", "tombstone", "export",
+            "manage_retention", "purge"]
+            .iter()
+            .map(|s| s.to_string())
+            .collect();
+        gov.create_grant(GrantDraft { space_id: DEFAULT_SPACE.into(), grantee_principal: WRITER.into(), actions: all, constraints: AuthorityConstraints { export: true, ..Default::default() }, ..Default::default() }, SYSTEM_PRINCIPAL)
+            .await
+            .map_err(gerr("create_grant writer"))?;
+        principal(nx, SUSPENDED).await?;
+        gov.create_grant(GrantDraft { space_id: DEFAULT_SPACE.into(), grantee_principal: SUSPENDED.into(), actions: vec!["read".into(), "update".into(), "create".into()], ..Default::default() }, SYSTEM_PRINCIPAL)
+            .await
+            .map_err(gerr("create_grant suspended"))?;
+        gov.set_principal_status(SUSPENDED, status::SUSPENDED, SYSTEM_PRINCIPAL).await.map_err(gerr("suspend"))?;
+        let sessions: Vec<(&str, Session)> = vec![
+            ("writer", session(nx, WRITER)),
+            ("reader", session(nx, P)),
+            ("stranger", session(nx, STRANGER)),
+            ("suspended", session(nx, SUSPENDED)),
+            ("anonymous", nx.session(AuthContext::anonymous())),
+            ("owner", nx.system_session()),
+        ];
+        let mut before = authority_dump(nx).await?;
+        // destructive statements last, so that the others find their targets
+        let mut order: Vec<usize> = (0..atts.len()).collect();
+        rng.shuffle(&mut order);
+        order.sort_by_key(|i| atts[*i].text.starts_with("PURGE") || atts[*i].text.starts_with("TOMBSTONE") || atts[*i].text.starts_with("MERGE"));
+        for (who, sess) in &sessions {
+            for &i in &order {
+                let a = &atts[i];
+                let outcome = attempt(sess, &w, &script, a).await;
+                st.eval();
+                st.count(&format!("escalation_commands_{who}"));
+                st.count(&format!("escalation_{}_{outcome}", a.kind));
+                let after = authority_dump(nx).await?;
+                let bad = forbidden_changes(&before, &after);
+                if !bad.is_empty() {
+                    let what = bad[0].split(':').next().unwrap_or("?").to_string();
+                    report(
+                        st,
+                        format!("C19/escalation/{who}/{}/{what}_changed_by_a_session_command", a.kind),
+                        json!({"case": case, "session": who, "command": a.text, "ast_injected": a.ast.is_some(), "params": w.params(&script, 0, &a.params), "outcome": outcome, "changes": bad}),
+                    );
+                }
+                let gained = after[anda_cognitive_nexus::governance::store::AUDIT].len() - before[anda_cognitive_nexus::governance::store::AUDIT].len().min(after[anda_cognitive_nexus::governance::store::AUDIT].len());
+                st.add("escalation_audit_rows_gained", gained as u64);
+                before = after;
+            }
+        }
+        st.sample(|| json!({"monitor": "escalation", "case": case, "attempts": atts.len(), "sessions": sessions.len()}));
+        Ok(())
+    });
+    if let Err(e) = res {
+        st.inconclusive(format!("C19 escalation case {case}: {e}"));
+    }
+}
+
 fn main() {
     let mut run = Run::from_args(
         "C19",
@@ -1274,6 +1539,9 @@ fn main() {
     }
     if run.wants("timeline") {
         run.parallel("timeline", t.pick(48, 1500), 0.4, |c, rng, st| timeline_case(c, rng, st));
+    }
+    if run.wants("escalation") {
+        run.parallel("escalation", t.pick(16, 400), 0.6, |c, rng, st| escalation_case(c, rng, st));
     }
     if run.wants("delegation") {
         run.parallel("delegation", t.pick(24, 800), 0.5, |c, rng, st| delegation_case(c, rng, st));
